@@ -11,6 +11,8 @@ package zknth
 
 //@ func (*Proof).Verify
 //@   nopanic[C05]
+//@   modifies nothing
+//@   allocates
 //@   requires hash != nil && hash.h != nil && pkok(public.N) && public.R != nil
 
 //@ func challenge
